@@ -128,9 +128,11 @@ enum Folded {
 /// loaded. What can be seen to fail in the constant parts of the expression is
 /// rejected here: a division or remainder by zero (a float one gives an infinity
 /// or NaN, which a story cannot hold either), an integer division that overflows,
-/// and `-`, `*`, `/`, `%` applied to a string. Only literals combined with `+ - * / %`
-/// and unary minus are folded, the way the runtime evaluates them; what refers to
-/// other variables or calls functions is left to the runtime.
+/// and an operator that no string can be an operand of (`-`, `*`, `/`, `%`, `<`, `>`,
+/// `<=`, `>=`, `not`, and `&&`, `||` with another literal) applied to a string literal. Only
+/// literals combined with `+ - * / %` and unary minus are folded, the way the runtime
+/// evaluates them; what refers to other variables or calls functions is left to the
+/// runtime.
 pub(crate) fn check_initial_value(
     name: &str,
     expression: &Expression,
@@ -165,10 +167,10 @@ fn fold(expression: &Expression) -> Result<Option<Folded>, String> {
             Some(Folded::Str) => Err("'-' cannot be applied to a string".to_owned()),
             None => Ok(None),
         },
-        Expression::Not(inner) => {
-            fold(inner)?;
-            Ok(None)
-        }
+        Expression::Not(inner) => match fold(inner)? {
+            Some(Folded::Str) => Err("'not' cannot be applied to a string".to_owned()),
+            _ => Ok(None),
+        },
         Expression::FunctionCall { args, .. } => {
             for argument in args {
                 fold(argument)?;
@@ -183,6 +185,23 @@ fn fold(expression: &Expression) -> Result<Option<Folded>, String> {
             // (both operands are always evaluated, also those of `&&` and `||`)
             let left = fold(left)?;
             let right = fold(right)?;
+            // Whatever the other operand is, these operators fail on a string.
+            let never_on_a_string = match operator {
+                BinaryOperator::Subtract => Some("-"),
+                BinaryOperator::Multiply => Some("*"),
+                BinaryOperator::Divide => Some("/"),
+                BinaryOperator::Modulo => Some("%"),
+                BinaryOperator::Less => Some("<"),
+                BinaryOperator::LessEqual => Some("<="),
+                BinaryOperator::Greater => Some(">"),
+                BinaryOperator::GreaterEqual => Some(">="),
+                _ => None,
+            };
+            if let Some(symbol) = never_on_a_string
+                && (matches!(left, Some(Folded::Str)) || matches!(right, Some(Folded::Str)))
+            {
+                return Err(format!("'{symbol}' cannot be applied to a string"));
+            }
             match (left, right) {
                 (Some(left), Some(right)) => fold_binary(left, *operator, right),
                 _ => Ok(None),
@@ -208,16 +227,19 @@ fn fold_binary(
         BinaryOperator::Multiply => '*',
         BinaryOperator::Divide => '/',
         BinaryOperator::Modulo => '%',
+        BinaryOperator::And | BinaryOperator::Or
+            if matches!(left, Folded::Str) || matches!(right, Folded::Str) =>
+        {
+            // (with a list they test for emptiness, but these are two constants,
+            // brought to the type of the string)
+            return Err("'&&' and '||' cannot be applied to a string".to_owned());
+        }
         _ => return Ok(None),
     };
 
     let folded = match (left, right) {
-        (Folded::Str, _) | (_, Folded::Str) => {
-            if operator != BinaryOperator::Add {
-                return Err(format!("'{symbol}' cannot be applied to a string"));
-            }
-            Folded::Str
-        }
+        // (the other operators were rejected by the caller)
+        (Folded::Str, _) | (_, Folded::Str) => Folded::Str,
         (Folded::Int(left), Folded::Int(right)) => Folded::Int(match operator {
             BinaryOperator::Add => left.wrapping_add(right),
             BinaryOperator::Subtract => left.wrapping_sub(right),
